@@ -772,17 +772,17 @@ impl SerializableValue {
                 // In a real implementation, we'd want to serialize/deserialize the AST properly
                 // The body has to be a single expression: text that is blank, only a
                 // comment or an output declaration is reported instead of being handed on
-                let body_statement = crate::parser::get_pairs(&s_lambda.body)?
+                // (an end-of-line comment after the expression is a sibling of it and is
+                // left out)
+                let body_expression = crate::parser::get_pairs(&s_lambda.body)?
                     .next()
-                    .filter(|pair| {
-                        pair.as_rule() == crate::parser::Rule::statement
-                            && pair.clone().into_inner().next().map(|inner| inner.as_rule())
-                                == Some(crate::parser::Rule::expression)
-                    })
+                    .filter(|pair| pair.as_rule() == crate::parser::Rule::statement)
+                    .and_then(|statement| statement.into_inner().next())
+                    .filter(|inner| inner.as_rule() == crate::parser::Rule::expression)
                     .ok_or_else(|| {
                         anyhow!("function body is not an expression: {:?}", s_lambda.body)
                     })?;
-                let body_ast = crate::expressions::pairs_to_expr(body_statement.into_inner())?;
+                let body_ast = crate::expressions::pairs_to_expr(body_expression.into_inner())?;
 
                 let lambda = LambdaDef {
                     name: s_lambda.name.clone(),
